@@ -6,17 +6,19 @@ META = {
     "disabled": False,
     "level": "model_checking",
     "level_text": "BlpLayout.tla is the arithmetic oracle of the BLP format (MipCount = floor(log2 max(w,h)) + 1, Dim(i) = max(1, w >> i) x max(1, h >> i) "
-                  "ending at 1x1, LevelBytes per encoding and alpha depth, header size and locator position per version, levels laid out back to back) "
-                  "plus a layout machine (convert, header, palette / JPEG header, one level per step filling the locator, reader through the locator). TLC "
-                  "checks on 72 dimension pairs x versions x encodings x alpha depths x mipmaps that locator ranges are ascending, disjoint, inside the "
-                  "file and behind the palette, that the chain reaches 1x1, that the reader gets back the levels laid out, and that the code's "
-                  "generate_mipmaps deviation bites exactly when floor(log2 w) != floor(log2 h). TLC then tabulates shapes; the harness converts synthetic "
-                  "images with the real crate, encodes, reads width/height/locator out of the bytes at the positions TLC emitted, parses and decodes; TLC "
-                  "validates level counts, every level size, ranges, structure tokens, raw BGRA pixel equality, palette membership and alpha quantisation.",
-    "level_note": "JPEG level sizes are opaque (only count, ranges, structure). DXT and JPEG pixel quality is not examined (lossy). Alpha quantisation accepts "
-                  "any nearest-level rounding at 4 bits and any threshold at 1 bit with the extremes fixed. quick covers 13x13 dimension pairs up to 64 for four "
-                  "targets with mipmaps, every target x mipmaps on fixed non-square/odd pairs and a seed-rotated 1/7 of the rest; thorough adds all targets on "
-                  "all pairs and dimensions up to 512.",
+                  "ending at 1x1, LevelBytes per encoding and alpha depth, header size and locator position per version, levels laid out back to back, the "
+                  "truncating-save law of the file-path API) plus a layout machine (convert, header, palette / JPEG header, one level per step filling the locator, "
+                  "reader through the locator; the pre-fix short mip chain kept as a named deviation). TLC checks on 72 dimension pairs x versions x encodings x "
+                  "alpha depths x mipmaps that locator ranges are ascending, disjoint, inside the file and behind the palette, that the chain reaches 1x1 and that "
+                  "the reader gets back the levels laid out. TLC then tabulates shapes; the harness converts synthetic images with the real crate, encodes, reads "
+                  "width/height/locator out of the bytes at the positions TLC emitted, parses, decodes every level, compares the alpha plane of every level of "
+                  "palettised textures, and drives save_blp / load_blp over destinations that are absent / hold a shorter / a longer earlier save; TLC validates "
+                  "level counts, every level size and dimension, ranges, structure tokens, raw BGRA pixel equality, palette membership, alpha quantisation, and "
+                  "that the files on disk equal the encoded bytes.",
+    "level_note": "JPEG level sizes are opaque (count, ranges, decoded dimensions, structure). DXT and JPEG pixel quality is not examined (lossy). Alpha quantisation accepts "
+                  "any nearest-level rounding at 4 bits and any threshold at 1 bit with the extremes fixed; alpha of scaled-down levels is compared within a "
+                  "resampling-tolerant band (exact agreement is a DRIFT check). quick covers 13x13 dimension pairs up to 64 for four targets with mipmaps, every target "
+                  "x mipmaps on fixed non-square/odd pairs and a seed-rotated 1/7 of the rest; thorough adds all targets on all pairs and dimensions up to 512.",
     "technique": "TLA+ arithmetic oracle and layout machine (BlpLayout.tla) model-checked by TLC; TLC-tabulated shapes replayed on wow-blp; trace validation by TLC",
     "design_ref": "DESIGN.md section 5, C13-C18 recipe and C16 paragraph",
     "crates": ["c16"],
@@ -41,7 +43,7 @@ def sig(b):
     r = b.get("reset") or {}
     w, h, mips = r.get("w", 1), r.get("h", 1), bool(r.get("mips"))
     return {"ev": b["ev"], "why": str(b.get("why", "")).strip('"'), "ver": r.get("ver"), "enc": r.get("enc"), "alpha": r.get("alpha"),
-            "mips": mips, "nonsq": _lg(w) != _lg(h), "dxtPad": _dxt_pad(w, h, mips)}
+            "mips": mips, "nonsq": _lg(w) != _lg(h), "dxtPad": _dxt_pad(w, h, mips), "pre": (b.get("rec") or {}).get("pre")}
 
 
 def run(ctx, cases_override=None):
@@ -78,8 +80,8 @@ def run(ctx, cases_override=None):
         "exhaustive": False,
     }
     assumptions = ["images are synthetic RGBA8 (gradient, <= 12 colours, noise, fully transparent, binary alpha), dimensions 1..512",
-                   "mipmap filter Triangle, DXT algorithm RangeFit",
-                   "BLP0 levels live in external files handed to the parser in memory (encode_blp0 / parse_blp_with_externals)"]
+                   "mipmap filter Triangle, DXT algorithm RangeFit; the expected alpha of level i is the source halved i times with resize_exact and that filter",
+                   "BLP0 levels live in external files (encode_blp0 / parse_blp_with_externals in memory, save_blp / load_blp on disk)"]
     return core.finish(ctx, "model_checking", cov, assumptions, res["bad"], sig_fn=sig, trace=trace)
 
 
